@@ -15,7 +15,11 @@ RULE = ('Hypothesis: 0-5 tracks of 0-10 uniquely tagged messages (Message, MetaM
         'position; end_of_track canonicalised) compared message by message incl. time; result is a MidiTrack with exactly '
         'one end_of_track, last; total == max track total; inputs (list identity, length, every message\'s vars) unchanged; '
         'both skip_checks settings agree. Non-trivial = >= 2 non-empty tracks whose absolute times interleave with at least '
-        'one cross-track tie; distinct by input structure.')
+        'one cross-track tie; distinct by input structure.'
+        ' Later additions: tracks as tuples / generators / one-shot iterators, frozen messages, 1500 tracks,'
+        ' poking a returned track, and three in-place edits (add ticks; move a tick to the neighbour; change a'
+        ' non-time attribute) each followed by merge_tracks and by MidiFile.merged_track on the same file object'
+        ' (type 0 for half of the single-track files).')
 ASSUMPTIONS = ['float deltas are dyadic so that the reference arithmetic is exact']
 
 
